@@ -207,6 +207,12 @@ Finalize:
     return ecode;
 Error:
     ecode = 1;
+    // This thread stops reading its input queue. Like the sink when its
+    // storage fails: tell the source to stop, and refuse writes so that a
+    // source waiting for space in the queue returns.
+    if (self->sig_stop_source)
+        self->sig_stop_source(self);
+    channel_accept_writes(&self->in, 0);
     goto Finalize;
 }
 
